@@ -125,6 +125,7 @@ func main() {
 				"ik": ev.Ints(args[2]), "ak": ev.Ints(args[3]), "akStar": ev.Ints(args[4]), "err": e3 != nil || pp != ""})
 		}
 
+		nchecks := 0
 		gen := func(sqn []byte) []byte {
 			autn, gik, gck, gak, gres := make([]byte, 16), make([]byte, 16), make([]byte, 16), make([]byte, 6), make([]byte, 8)
 			var rl uint = 8
@@ -138,10 +139,22 @@ func main() {
 			cik, cck, cres, auts := make([]byte, 16), make([]byte, 16), make([]byte, 8), make([]byte, 14)
 			var rl uint = 8
 			ret := 99
-			p := ev.Catch(func() { ret = milenage.Milenage_check(opc, k, cp(sqnMs), rnd, cp(autn), cik, cck, cres, &rl, auts) })
+			// the token and the UE's SQN are handed over in buffers the caller keeps: a retransmitted challenge (the same buffers presented
+			// again) must get the same verdict, so the event of the second presentation still names the octets the caller put there
+			tok, ms := cp(autn), cp(sqnMs)
+			p := ev.Catch(func() { ret = milenage.Milenage_check(opc, k, ms, rnd, tok, cik, cck, cres, &rl, auts) })
 			emit(ev.M{"ev": "Check", "cls": cls, "k": ev.Ints(k), "opc": ev.Ints(opc), "rand": ev.Ints(rnd), "autn": ev.Ints(autn),
 				"sqnMs": ev.Ints(sqnMs), "ret": ret, "ik": ev.Ints(cik), "ck": ev.Ints(cck), "res": ev.Ints(cres),
 				"auts": ev.Ints(auts), "panic": p != ""})
+			nchecks++
+			if nchecks%4 == 0 {
+				cik2, cck2, cres2, auts2 := make([]byte, 16), make([]byte, 16), make([]byte, 8), make([]byte, 14)
+				ret2 := 99
+				p2 := ev.Catch(func() { ret2 = milenage.Milenage_check(opc, k, ms, rnd, tok, cik2, cck2, cres2, &rl, auts2) })
+				emit(ev.M{"ev": "Check", "cls": cls + "-again", "k": ev.Ints(k), "opc": ev.Ints(opc), "rand": ev.Ints(rnd), "autn": ev.Ints(autn),
+					"sqnMs": ev.Ints(sqnMs), "ret": ret2, "ik": ev.Ints(cik2), "ck": ev.Ints(cck2), "res": ev.Ints(cres2),
+					"auts": ev.Ints(auts2), "panic": p2 != ""})
+			}
 			return auts
 		}
 		autsCheck := func(auts []byte, cls string) {
